@@ -356,6 +356,12 @@ def check(case, stats=None):
 
                     def rows_of(x):
                         return [np.asarray(r.to_array() if hasattr(r, "to_array") else r).tolist() for r in x]
+                    # the streamed stranded windows, evaluated: the same windows, still stranded, with the same strands
+                    evaluated = bnp.compute(genome.get_intervals(NpDataclassStream(iter([swt[:1], swt[1:]] if len(wins) > 1 else [swt]), dataclass=StrandedInterval), stranded=True))
+                    ev_strands = evaluated.strand.ravel().to_string() if evaluated.is_stranded() else None
+                    if ev_strands != strands or evaluated.start.tolist() != [x[1] for x in wins]:
+                        return [Failure("C11:stranded-intervals-evaluated", {"stranded": bool(evaluated.is_stranded()), "strands": ev_strands, "expected": strands,
+                                                                            "starts": evaluated.start.tolist()})]
                     sgw = genome.get_intervals(NpDataclassStream(iter([swt]), dataclass=StrandedInterval), stranded=True)
                     got_rows = rows_of(bnp.compute(genome.get_intervals(stream()).get_pileup()[sgw]))      # (a stream is read once: a fresh one)
                     mem_pile = genome.get_intervals(table).get_pileup()
